@@ -315,6 +315,18 @@ def load_api(only_auth=False):
     def pub_of_seed(seed, _):
         return C.PublicKey.to_bytes(C.PrivateKey.from_bytes(seed).public_key())
     api["pub_of_seed"] = pub_of_seed
+    # the same operations under the names the Gallina RFC 8032 specification is dispatched by (model side: no oracle table)
+    api["rfc8032_pub"] = lambda seed, _: C.PublicKey.to_bytes(C.PrivateKey.from_bytes(seed).public_key())
+    api["rfc8032_sign"] = lambda seed, msg: C.PrivateKey.from_bytes(seed).sign(msg)
+
+    def rfc8032_verify(pk, msg, sg):
+        try:
+            A.verify_signature(sg.hex(), C.PublicKey.from_bytes(pk), msg)
+            return True
+        except cryptography.exceptions.InvalidSignature:
+            return False
+    api["rfc8032_verify"] = rfc8032_verify
+    api["sha512"] = lambda m, _: __import__("hashlib").sha512(m).digest()
 
     EPOCH = datetime.datetime(1, 1, 1)
 
@@ -338,13 +350,25 @@ def load_api(only_auth=False):
         reads = ([n_ts] if ts is None else []) + ([n_ex] if ex is None else [])
         # optional arguments that are None are omitted, so that the function's own defaults are exercised
         kw = {k: v for k, v in (("delegations", dl), ("timestamp", ts), ("expiration", ex)) if v is not None}
-        return with_clock(reads, lambda: M.build_delegating_metadata(ty, version=ver, **kw))
+        md = with_clock(reads, lambda: M.build_delegating_metadata(ty, version=ver, **kw))
+        _own_checker(md)
+        return md
     api["build_delegating_metadata"] = build_delegating_metadata
+
+    def _own_checker(md):
+        """what a builder returns must pass the library's own checker once wrapped (supported types only)"""
+        if isinstance(md, dict) and isinstance(md.get("type"), str) and md.get("type") in ("root", "key_mgr"):
+            try:
+                C.checkformat_delegating_metadata(S.wrap_as_signable(md))
+            except (TypeError, ValueError) as e:
+                raise RuntimeError("BUILT-METADATA-FAILS-THE-CHECKER: %s" % str(e)[:80])
 
     def build_root_metadata(n_ex, n_ts, ver, rk, rt, kk, kt, ts, ex):
         reads = ([n_ex] if ex is None else []) + ([n_ts] if ts is None else [])
         kw = {k: v for k, v in (("root_timestamp", ts), ("root_expiration", ex)) if v is not None}
-        return with_clock(reads, lambda: M.build_root_metadata(ver, rk, rt, kk, kt, **kw))
+        md = with_clock(reads, lambda: M.build_root_metadata(ver, rk, rt, kk, kt, **kw))
+        _own_checker(md)
+        return md
     api["build_root_metadata"] = build_root_metadata
 
     import cryptography.exceptions
